@@ -6,12 +6,14 @@
      never an acceptable answer. The spec side uses neither Model/ nor gen/.
    model side: Model/BitVec.v for the plain bitvector (in the build's mode and select path), Model/RL.v for the
      run-length vector (rebuilt from the content by the same builder calls as in the harness; Check/C09RL.v),
-     Model/IntVec.v and Model/Builders.v for the constructors. The models of SparseVector / WaveletMatrix are
-     written in other packages and are not available here: for those outputs the model side is vacuous. *)
+     Model/IntVec.v and Model/Builders.v for the constructors, Model/WM.v for WaveletMatrix / WMCore (rebuilt from
+     the value list by the model's From<Vec<T>>; Check/C09WM.v). The model of SparseVector is written in another
+     package and is not available here: for those outputs the model side is vacuous. *)
 From Coq Require Import NArith List Bool.
 Require Import SDS.Model.Mach SDS.Model.Bits SDS.Model.Raw SDS.Model.IntVec SDS.Model.BitVec SDS.Model.Builders.
 Require Import SDS.Spec.BitSeq SDS.Spec.BuilderSpec SDS.Check.Common.
 Require SDS.Model.RL SDS.Check.C09RL.     (* qualified: the iterator records have the same names as in BitVec *)
+Require SDS.Model.WM SDS.Check.C09WM.     (* qualified: WaveletMatrix / WMCore rebuilt by Model/WM.v *)
 Import ListNotations.
 Open Scope N_scope.
 
@@ -381,6 +383,33 @@ Definition model_ctor (m : mode) (kind a b : N) : res bool :=
   | _ => Panic PDoc
   end.
 
+(* ---- WaveletMatrix / WMCore: rebuilt by the model from the value list (Check/C09WM.v); the matrix calls occur
+   only in cases where the harness built a matrix ---- *)
+Definition model_wq (sp : selpath) (m : mode) (core : WM.wmcore) (ow : option WM.wmatrix) (q : wq) : bool :=
+  let on {A} (f : WM.wmatrix -> res A) : res A := match ow with Some w => f w | None => Panic PDoc end in
+  match q with
+  | WRank i v o => res_agree N.eqb (on (fun w => WM.wm_rank m w i v)) o
+  | WSel r v o => res_agree onat_eqb (on (fun w => WM.wm_select sp m w r v)) o
+  | WSelIter r v o => res_agree onn_eqb (on (fun w => C09WM.q_first sp m w (Ok (WM.wm_select_iter r v)))) o
+  | WInv i o => res_agree onn_eqb (on (fun w => WM.wm_inverse_select m w i)) o
+  | WContains v o => res_agree Bool.eqb (on (fun w => WM.wm_contains w v)) o
+  | WPred i v o => res_agree onn_eqb (on (fun w => C09WM.q_first sp m w (WM.wm_predecessor m w i v))) o
+  | WSucc i v o => res_agree onn_eqb (on (fun w => C09WM.q_first sp m w (WM.wm_successor m w i v))) o
+  | WValNth v n o => res_agree (pair_eqb onn_eqb onn_eqb) (on (fun w => C09WM.q_val_nth sp m w v n)) o
+  | WGetOr i d o => res_agree N.eqb (on (fun w => C09WM.q_get_or m w i d)) o
+  | WIterNth back k n o => res_agree (nth_eqb N.eqb) (on (fun w => C09WM.q_iter_nth m w back k n)) o
+  | MDown i o => res_agree onn_eqb (WM.wc_map_down m core i) o
+  | MDownWith i v o => res_agree N.eqb (WM.wc_map_down_with m core i v) o
+  | MDown2 i j v o => res_agree nn_eqb (WM.wc_map_down_with_two m core i j v) o
+  | MUpWith i v o => res_agree onat_eqb (WM.wc_map_up_with sp m core i v) o
+  end.
+Definition model_wm (sp : selpath) (m : mode) (has_wm : bool) (vals : list N) (r_len r_width : N) (qs : list wq) : bool :=
+  match C09WM.build sp m has_wm vals with
+  | Ok (core, ow) =>
+      res_agree N.eqb (WM.wc_len core) (IOk r_len) && (WM.wc_width core =? r_width) && forallb (model_wq sp m core ow) qs
+  | _ => false
+  end.
+
 (* ================================================================ check *)
 
 Definition check (c : case) : N :=
@@ -400,7 +429,8 @@ Definition check (c : case) : N :=
       code m_ok (forallb (spec_bq O) qs)
   | CWM path dbg has_wm vals r_len r_width qs =>
       let w := w_width vals in
-      code true ((r_len =? lenN vals) && (r_width =? w) && forallb (spec_wq vals w) qs)
+      code (model_wm (sp_of path) (mode_of dbg) has_wm vals r_len r_width qs)
+           ((r_len =? lenN vals) && (r_width =? w) && forallb (spec_wq vals w) qs)
   | CIV dbg width vals qs =>
       let v := match iv_new width with Some v0 => iv_push_all v0 vals | None => Panic PDoc end in
       code (forallb (model_ivq v) qs) (forallb (spec_ivq vals) qs)
@@ -435,7 +465,11 @@ Definition explain (c : case) : list (N * bool * bool) :=
           | None => tag (fun _ => true) (spec_bq O) qs 0
           end
       end
-  | CWM path dbg has_wm vals r_len r_width qs => tag (fun _ => true) (spec_wq vals (w_width vals)) qs 0
+  | CWM path dbg has_wm vals r_len r_width qs =>
+      match C09WM.build (sp_of path) (mode_of dbg) has_wm vals with
+      | Ok (core, ow) => tag (model_wq (sp_of path) (mode_of dbg) core ow) (spec_wq vals (w_width vals)) qs 0
+      | _ => tag (fun _ => false) (spec_wq vals (w_width vals)) qs 0
+      end
   | CIV dbg width vals qs => tag (fun _ => true) (spec_ivq vals) qs 0
   | _ => []
   end.
